@@ -210,7 +210,7 @@ def run_history(spec, hseed, steps, driver, structural=True, behavioural=True):
           "dep_sources_read": 0, "with_write_nodes": 0, "with_barrier_kept": 0, "literal_pruned": 0,
           "registered_output": 0, "structured_output": 0, "no_output": 0, "source_before_its_stored_pred": 0,
           "values_checked": 0}
-    pending = []      # (line, line_engine, RealGraph, engine view, description)
+    pending = []      # (line, line_engine, line_loop, RealGraph, engine view, description)
     reg_order = [b.inv[id(n)] for n in b.reg.mapping]
     regpos = {i: k for k, i in enumerate(reg_order)}
     log = []
@@ -229,7 +229,7 @@ def run_history(spec, hseed, steps, driver, structural=True, behavioural=True):
         line, extras = pc.phys_line("final", b, outobj, stale)
         line2, _ = pc.phys_line("engine", b, outobj, stale)
         rg = pc.RealGraph(b, P, po, extras, stale)
-        pending.append((line, line2, rg, pc.engine_view(P), {"at": tag, "output": outspec, "fresh": F, "stale": sorted(stale)}))
+        pending.append((line, line2, line.replace("phys final", "phys loopfinal", 1), rg, pc.engine_view(P), {"at": tag, "output": outspec, "fresh": F, "stale": sorted(stale)}))
         st["comparisons"] += 1
         sreg = [i for i in stale if i in b.stores]
         st["nontrivial"] += bool(sreg)
@@ -314,11 +314,15 @@ def run_history(spec, hseed, steps, driver, structural=True, behavioural=True):
         compare("end")
     if driver is not None and pending and not viol:
         lines = []
-        for line, line2, _, _, _ in pending:
-            lines += [line, line2]
+        for line, line2, line3, _, _, _ in pending:
+            lines += [line, line2, line3]
         out = driver.batch(lines)
-        for k, (line, line2, rg, ev, desc) in enumerate(pending):
-            rep, rep2 = out[2 * k], out[2 * k + 1]
+        for k, (line, line2, line3, rg, ev, desc) in enumerate(pending):
+            rep, rep2, rep3 = out[3 * k], out[3 * k + 1], out[3 * k + 2]
+            if pc.norm_reply(rep3) != pc.norm_reply(rep):
+                dis.append({"layer": "model:loop-vs-closed-form", "what": "the transcribed loop and the closed form differ",
+                            "request": line3, "model": rep, "model_loop": rep3, "state": desc})
+                break
             st["with_barrier_kept"] += bool(rg.barriers)
             st["literal_pruned"] += any(b.kinds[i] in pc.LITS and ("o%d" % i) not in rg.name.values() for i in b.kinds)
             real = rg.matches(rep, ev, rep2)
@@ -337,10 +341,11 @@ def explore_phys(ctx, n_hist, steps, structural=True, behavioural=True, salt=9):
     rng = random.Random(ctx.seed * 7919 + salt)
     viol, dis, tot, samples, distinct = [], [], {}, [], set()
     h = -1
+    driver = pc.local_driver(ctx.driver)
     for h in range(n_hist):
         spec = pc.gen_phys_spec(rng, nmax=9 if ctx.tier == "quick" else 13)
         hseed = rng.randrange(1 << 30)
-        v, d, st = run_history(spec, hseed, steps, ctx.driver, structural, behavioural)
+        v, d, st = run_history(spec, hseed, steps, driver, structural, behavioural)
         for k, x in st.items():
             tot[k] = tot.get(k, 0) + x
         viol += v
@@ -351,9 +356,11 @@ def explore_phys(ctx, n_hist, steps, structural=True, behavioural=True, salt=9):
                 samples.append({"spec": spec, "history_seed": hseed, "steps": steps, "stats": st})
         if len(viol) >= 3 or len(dis) >= 2:
             break
+    if driver is not None:
+        driver.close()
     cov = dict(tot)
     cov["histories"] = h + 1
-    cov["evaluations"] = tot.get("comparisons", 0) * 2 + tot.get("runs", 0)
+    cov["evaluations"] = tot.get("comparisons", 0) * 3 + tot.get("runs", 0)
     cov["programs"] = h + 1
     cov["distinct_nontrivial"] = len(distinct)
     cov["rule"] = ("generated plans (sources, stored / unstored calls with positional and keyword arguments, registered and plain "
@@ -361,7 +368,8 @@ def explore_phys(ctx, n_hist, steps, structural=True, behavioural=True, salt=9):
                    "in a random creation order with registry.add at random later points; seeded histories of source updates, "
                    "deletions, scrambles and REAL runs (normalising stores, cooperative scheduler, 1-4 workers, cut short / failing "
                    "call); at every state 2 x (random output: none / node / structure, random fresh_time): real dry_run graph and "
-                   "engine graph == Lean model (driver `phys final|engine`), exact node order and keyed edges; every real run: "
+                   "engine graph == Lean model (driver `phys final|engine`; `phys loopfinal` = the transcribed loop + prune_plan must agree "
+                   "too), exact node order and keyed edges; every real run: "
                    "event-log and value monitor; distinct_nontrivial = histories with an out-of-date registered node")
     cov["samples"] = samples
     return {"violations": viol, "disagreements": dis, "coverage": cov}
@@ -398,7 +406,12 @@ def search(ctx, broken):
 
 def replay(ctx, payload):
     w = payload.get("witness", payload)
-    v, d, _ = run_history(w["spec"], w["hseed"], w["steps"], ctx.driver, w.get("structural", True), w.get("behavioural", True))
+    # the real scheduler breaks ties by object identity (greedy priorities over sets of nodes): a schedule-dependent
+    # witness may need more than one attempt
+    for _ in range(4):
+        v, d, _ = run_history(w["spec"], w["hseed"], w["steps"], ctx.driver, w.get("structural", True), w.get("behavioural", True))
+        if v or d:
+            break
     if v:
         return v[0]["what"]
     if d:
